@@ -392,7 +392,9 @@ Exec(m, p, s) ==
          IF s.a = 0 /\ s.b = 65529 /\ s.bare THEN Fail(m, p, Err(EIllegalFn))
          ELSE IF s.a > MaxLine \/ s.b > MaxLine \/ s.a > s.b THEN Fail(m, p, Err(AnyErr))
          ELSE LET keep == {n \in DOMAIN m.lst : n < s.a \/ n > s.b} IN
-              IF keep = DOMAIN m.lst THEN GoReady(m)
+              \* (nothing in range: the statement still ends the run; whether a program that executed
+              \* it can be continued is not fixed by the manual)
+              IF keep = DOMAIN m.lst THEN GoReady(IF InProgram(p) THEN [m EXCEPT !.contx = TRUE, !.cont = NoCont] ELSE m)
               ELSE GoReady(Edited(m, [n \in keep |-> m.lst[n]], [n \in keep |-> m.src[n]]))
     [] s.k = "list" /\ (s.a > MaxLine \/ s.b > MaxLine \/ s.a > s.b) -> Fail(m, p, Err(AnyErr))
     [] s.k = "list" ->
